@@ -29,8 +29,8 @@ func init() {
 			"Oracle: if an encryption key is advertised, the reply is either an error without SAMLResponse, or contains no clear Assertion, no tagged session string anywhere in the HTML or decoded XML, decrypts (reference decrypter) with the private key of an advertised certificate and with no other key to an IdP-signed assertion, and its CEK and IV are byte ranges served by the recorded random source during that response, pairwise distinct over the run. " +
 			"SP side: generated responses (valid, time/addressing/request-ID deviations, unsigned and attacker-signed) rendered twice — clear Assertion and the same bytes as EncryptedAssertion to the SP certificate — must get the same verdict and projection; tampered ciphertext must be an InvalidResponseError. Non-trivial = IdP reply decoded / both differential variants delivered; distinct by layout x certificate content x session, or by differential case vector.",
 		Assumptions: []string{"signing-only descriptors make clear assertions legitimate (no verdict)", "'advertises an encryption key' = descriptor with use=encryption, or use omitted with non-empty certificate data"},
-		FloorQuick:  2000,
-		FloorThor:   40000,
+		FloorQuick:  450,
+		FloorThor:   2000,
 		Run:         runC08,
 		LevelText:   "Every key-descriptor layout and unusable-certificate class is driven through the real IdP with tagged sessions; the emitted bytes are scanned for clear user data, decrypted independently, and key/IV freshness is observed at the random source rather than inferred; the SP side is checked differentially (clear vs encrypted rendering of the same assertion). Held-on-observed.",
 		LevelNote:   "Trusts the reference decrypter, x/net/html, crypto/rsa; the recording reader replaces xmlenc.RandReader and saml.RandReader.",
